@@ -143,6 +143,8 @@ class Function:
                     for d in n.get("decls", []):
                         if d.get("init") is not None and not d.get("static") and d.get("dk") == "Var":
                             i0 = self.strip(d["init"], casts=False)
+                            while i0 is not None and i0["k"] == "ImplicitCastExpr" and i0.get("ck") in ("ConstructorConversion", "NoOp") and i0.get("c"):
+                                i0 = self.strip(i0["c"][0], casts=False)
                             if i0 is not None and i0["k"] in ("CXXConstructExpr", "CXXTemporaryObjectExpr"):
                                 a = self.args(i0)
                                 same = len(a) == 1 and a[0].get("ct", "").replace("const ", "").strip() == d.get("ct", "").replace("const ", "").strip()
